@@ -190,7 +190,10 @@ NextOf(P(_), PS(_)) ==
   \/ \E S \in PS(SignerSets), t \in P(Acc), m \in P(Amounts) : Mint(S, t, m)
   \/ \E S \in PS(SignerSets), f \in P(Acc) : \E m \in P(Amounts \cup Hint(f)) : Burn(S, f, m)
   \/ \E S \in PS(SignerSets), f \in P(Users \cup {l \in Locks : acc[l].ex /\ acc[l].parent # Nil}),
-                                t \in P({l \in Locks \ used : ~acc[l].ex}) :   \* `from` may itself be a lock account (nested locks)
+                                t \in P({l \in Locks \ used : ~acc[l].ex \/ ("NonFreshTargets" \in Dev /\ acc[l].parent = Nil)}) :
+                                \* `from` may itself be a lock account (nested locks).  Dev switch "NonFreshTargets": the target
+                                \* may hold an ORDINARY entry (C09's quantifier does not ask for fresh targets, C01's does: that
+                                \* entry's balance is overwritten with 0, so only the C09 predicates are checked with the switch)
        \E m \in P(Amounts \cup Hint(f)), u \in P(Untils) :
         Lock(S, f, t, m, u)     \* lock targets are fresh addresses (quantifier of C01/C09); locking onto an
                                 \* existing account would overwrite its balance with 0
